@@ -200,7 +200,7 @@ func NewControl(
 		ctl.msgDispatcher = msg.NewDispatcher(ctl.conn)
 	}
 	ctl.registerMsgHandlers()
-	ctl.msgTransporter = transport.NewMessageTransporter(ctl.msgDispatcher.SendChannel())
+	ctl.msgTransporter = transport.NewMessageTransporterWithDone(ctl.msgDispatcher.SendChannel(), ctl.msgDispatcher.Done())
 	return ctl, nil
 }
 
